@@ -1,5 +1,6 @@
 import XalanModel.C12.Tree
 import XalanModel.C12.NodeList
+import XalanModel.C12.Walks
 import Driver.Util
 /-
 xm_c12: replays the C12 request stream (see harness/c12_nodelist.cpp for the protocol) on the Lean
@@ -17,6 +18,10 @@ namespace Driver.C12
 structure DocM where
   tree : Tree
   paths : Array Path
+  /-- namespace-declaration attributes: (element, position among its attributes, name: 'x' = xmlns:xml, 'p' = xmlns:p1) -/
+  ns : List (Path × Nat × Char) := []
+  /-- the element nodes (the tree model does not distinguish an empty element from a text/comment/PI leaf) -/
+  elems : List Path := []
 
 structure St where
   rep : Char := 'S'
@@ -73,6 +78,66 @@ def topElemFlags (cs : List Char) : List Bool :=
       else if depth = 0 ∧ (c = 't' ∨ c = 'c' ∨ c = 'p') then go rest depth (false :: acc)
       else go rest depth acc
   go cs 0 []
+
+/-- where the namespace declarations sit among the attributes of each element, per representation: the source tree
+lists them first (the document element also carries the implicit xmlns:xml), the Xerces wrapper sorts attributes by
+name so `xmlns:p1` comes after `a1…` -/
+partial def nsTable (rep : Char) (cs : List Char) : List (Path × Nat × Char) :=
+  let rec go (cs : List Char) (counters : List Nat) (path : Path) (seen : Bool)
+      (acc : List (Path × Nat × Char)) : List (Path × Nat × Char) :=
+    match cs with
+    | [] => acc.reverse
+    | c :: d :: '(' :: rest =>
+      if c = 'e' ∨ c = 'E' then
+        let k := counters.headD 0
+        let p := path ++ [Step.child k]
+        let isDoc := path.isEmpty && !seen
+        let na := d.toNat - '0'.toNat
+        let entries : List (Path × Nat × Char) :=
+          if rep = 'S' then
+            (if isDoc then [(p, 0, 'x')] else []) ++ (if c = 'E' then [(p, if isDoc then 1 else 0, 'p')] else [])
+          else (if c = 'E' then [(p, na, 'p')] else [])
+        go rest (0 :: (k + 1) :: counters.drop 1) p (seen || isDoc) (entries.reverse ++ acc)
+      else go (d :: '(' :: rest) counters path seen acc
+    | ')' :: rest => go rest (counters.drop 1) path.dropLast seen acc
+    | _ :: rest =>
+      go rest ((counters.headD 0 + 1) :: counters.drop 1) path seen acc
+  go cs [0] [] false []
+
+/-- paths of the element nodes of a shape -/
+partial def elemPaths (cs : List Char) : List Path :=
+  let rec go (cs : List Char) (counters : List Nat) (path : Path) (acc : List Path) : List Path :=
+    match cs with
+    | [] => acc.reverse
+    | c :: d :: '(' :: rest =>
+      if c = 'e' ∨ c = 'E' then
+        let k := counters.headD 0
+        let p := path ++ [Step.child k]
+        go rest (0 :: (k + 1) :: counters.drop 1) p (p :: acc)
+      else go (d :: '(' :: rest) counters path acc
+    | ')' :: rest => go rest (counters.drop 1) path.dropLast acc
+    | _ :: rest => go rest ((counters.headD 0 + 1) :: counters.drop 1) path acc
+  go cs [0] [] []
+
+def isNsAttr (tbl : List (Path × Nat × Char)) (q : Path) : Option Char :=
+  match q.getLast? with
+  | some (Step.attr k) => (tbl.find? fun x => x.1 == q.dropLast && x.2.1 == k).map (·.2.2)
+  | _ => none
+
+/-- `keep` of `findNamespace`: a namespace declaration that no nearer element of the chain re-declares -/
+def nsKeep (tbl : List (Path × Nat × Char)) (ctx q : Path) : Bool :=
+  match isNsAttr tbl q with
+  | some nm => !(tbl.any fun x => x.2.2 == nm && x.1.length > q.dropLast.length && x.1.isPrefixOf ctx)
+  | none => false
+
+def axisOfName : String → Option Axis
+  | "child" => some .child | "attribute" => some .attributes | "parent" => some .parent
+  | "ancestor" => some .ancestor | "following-sibling" => some .followingSibling
+  | "preceding-sibling" => some .precedingSibling | "self" => some .self
+  | "ancestor-or-self" => some .ancestorOrSelf | "descendant" => some .descendant
+  | "descendant-or-self" => some .descendantOrSelf | "following" => some .following
+  | "preceding" => some .preceding | "namespace" => some .namespaces
+  | _ => none
 
 def showNode : Option NodeRef → String
   | none => "0"
@@ -134,7 +199,7 @@ def docReply (s : St) (d : Nat) (shape : String) : St × String :=
     let t := Tree.node 0 tops
     let ps := t.paths.toArray
     let parents := (ps.toList.drop 1).map fun p => toString (t.paths.idxOf p.dropLast)
-    let s' := { s with docs := s.docs ++ [(d, { tree := t, paths := ps })] }
+    let s' := { s with docs := s.docs ++ [(d, { tree := t, paths := ps, ns := nsTable s.rep shape.toList, elems := elemPaths shape.toList })] }
     (s', s!"doc n={ps.size} idx={if s.rep = 'N' then "none" else "exact"} parents={",".intercalate parents}")
   | _ => (s, "bad shape")
 
@@ -177,6 +242,39 @@ def step (s : St) (ws : List String) : St × String :=
         (s, if bits.isEmpty then "-" else String.ofList bits)
       | none => (s, "bad doc")
     | none => (s, "bad doc")
+  | ["axis", n, name] =>
+    -- one step `name::node()` from context node n: the transcribed walk, delivered through `stepFinish`
+    match parseNode s n, axisOfName name with
+    | some c, some a =>
+      match findDoc s c.doc with
+      | some dm =>
+        match dm.paths[c.idx]? with
+        | some ctx =>
+          -- `findNamespace` only looks at an ELEMENT_NODE context
+          let keep := fun q => dm.elems.contains ctx && nsKeep dm.ns ctx q
+          let r := findAxisWalk dm.tree keep a ctx
+          let l := if a == Axis.attributes then r.1.filter (fun q => (isNsAttr dm.ns q).isNone) else r.1
+          let delivered := if r.2 then l.reverse else l
+          (s, "d :" ++ String.join (delivered.map fun p => s!" d{c.doc}.{dm.tree.paths.idxOf p}"))
+        | none => (s, "bad node")
+      | none => (s, "bad node")
+    | _, _ => (s, "bad axis")
+  | ["axisp", n, name, k] =>
+    -- `name::node()[k]`: the predicate evaluator counts in the order the walk left the nodes
+    match parseNode s n, axisOfName name, k.toNat? with
+    | some c, some a, some k =>
+      match findDoc s c.doc with
+      | some dm =>
+        match dm.paths[c.idx]? with
+        | some ctx =>
+          let keep := fun q => dm.elems.contains ctx && nsKeep dm.ns ctx q
+          let r := findAxisWalk dm.tree keep a ctx
+          let l := if a == Axis.attributes then r.1.filter (fun q => (isNsAttr dm.ns q).isNone) else r.1
+          let pick := if k = 0 then [] else (l[k - 1]?).toList
+          (s, "d :" ++ String.join (pick.map fun p => s!" d{c.doc}.{dm.tree.paths.idxOf p}"))
+        | none => (s, "bad node")
+      | none => (s, "bad node")
+    | _, _, _ => (s, "bad axis")
   | "xp" :: _ => (s, "-")
   | "xpu" :: rest =>
     match splitSemi rest with
